@@ -34,6 +34,8 @@ instance (c : Nat) : Decidable (Scalar c) := by unfold Scalar; infer_instance
 /-- the content of a Rust `&str`, as the sequence `x.chars()` yields -/
 def ScalarText (t : List Nat) : Prop := ∀ c ∈ t, Scalar c
 
+instance (t : List Nat) : Decidable (ScalarText t) := by unfold ScalarText; infer_instance
+
 /-! ### `SmtString` internals -/
 
 /-- `SmtString::make`: `none` = the `panic!` for a vector longer than `MAX_LENGTH` -/
